@@ -126,6 +126,31 @@ def run(ctx):
                 pass
     for a in specs:
         ~a
+    # operands that were built in ANOTHER interpreter (different hash seed) and arrived by pickle, combined with
+    # locally built ones: the case tables compare operands with == and use them as keys
+    if ctx.shard == 0:
+        from ..foreign import foreign_objects
+
+        far = foreign_objects([f"GenericSpecifier({op!r}, {lit!r})" for op in OPS for lit in LITS])
+        got = [f for f in far if f is not None]
+        ctx.extra["foreign_operands"] = len(got)
+        if len(got) < len(far):
+            ctx.inconclusive["foreign-operand-unavailable"] += len(far) - len(got)
+        for f, b in itertools.product(got, specs):
+            if ctx.tier == "quick" and (hash((f.op, f.value, b.op, b.value)) + ctx.seed) % 2:
+                continue
+            ctx.cases += 1
+            ctx.current_case = {"kind": "foreign-pair", "a": [f.op, f.value], "b": [b.op, b.value]}
+            for fn in (lambda: f & b, lambda: b & f, lambda: f | b, lambda: b | f):
+                try:
+                    fn()
+                except NotImplementedError:
+                    pass
+                except Exception:  # noqa: BLE001
+                    pass
+        for f in got:
+            ~f
+        ctx.shape("foreign-operands", len(got))
     # "injection" literals: a literal that looks like the tail of one rendered specifier and the head of another
     # (`a" & in "a`): hostile for anything that keys on concatenated renderings
     base = ["a", "ab"]
@@ -184,7 +209,14 @@ def replay(ctx, case):
             pass
         return
     a, b = S.GenericSpecifier(*case["a"]), S.GenericSpecifier(*case["b"])
-    for fn in (lambda: a & b, lambda: a | b, lambda: ~a, lambda: ~b):
+    if case["kind"] == "foreign-pair":
+        from ..foreign import foreign_objects
+
+        far = foreign_objects([f"GenericSpecifier({case['a'][0]!r}, {case['a'][1]!r})"])
+        if far[0] is None:
+            raise SystemExit("INCONCLUSIVE reason=the foreign interpreter did not deliver the operand")
+        a = far[0]
+    for fn in (lambda: a & b, lambda: b & a, lambda: a | b, lambda: b | a, lambda: ~a, lambda: ~b):
         try:
             fn()
         except NotImplementedError:
